@@ -829,6 +829,15 @@ func c11FinishedOracle(x *kit.Ctx, wk string, file []byte, o drv.Opts, codecName
 		x.Fail("c11:flatten-generate", "WriteTo failed: %v", err)
 		return
 	}
+	if !f.HasIndex && len(refcar.RecordsOf(f.Payload, cs.SID)) == 0 {
+		// nothing to index: whether an empty index is attached is not part of the statement; the regenerated
+		// index must still be the (empty) index of the payload
+		if nb, _, err := normaliseIndexBytes(gb.Bytes()); err != nil || !bytes.Equal(nb, refcar.EncodeIndex(uint64(codecOf(cs.Codec)), nil)) {
+			x.Fail("c11:flatten-bytes-normalised", "no indexable section, yet the regenerated index is not the empty index (decode err %v)", err)
+		}
+		x.Outcome("beyond-statement:finished-carv2-of-empty-session-without-index")
+		return
+	}
 	flat, err := index.ReadFrom(bytes.NewReader(f.IndexRaw))
 	if err != nil {
 		x.Fail("c11:flatten-read", "embedded index unreadable: %v", err)
